@@ -26,7 +26,8 @@ DecPd(j) ==
      cosa |-> InRat(j.cosa), m |-> j.m, n |-> j.n,
      fl |-> Fn([dof \in 1..3 |-> <<RatSeq(j.fl[dof][1]), RatSeq(j.fl[dof][2])>>]),
      stack |-> Fn([k \in 1..Len(j.stack) |-> DecPly(j.stack[k])]), off |-> InRat(j.off),
-     y1 |-> InRat(j.y1), y2 |-> InRat(j.y2), mu |-> InRat(j.mu), Ncte |-> RatSeq(j.Ncte)]
+     y1 |-> InRat(j.y1), y2 |-> InRat(j.y2), mu |-> InRat(j.mu), Ncte |-> RatSeq(j.Ncte),
+     ortho |-> IF "ortho" \in DOMAIN j THEN j.ortho ELSE FALSE]
 DecAd(j) == [kind |-> "asm", pds |-> Fn([k \in 1..Len(j.pds) |-> DecPd(j.pds[k])]),
              conns |-> Fn([k \in 1..Len(j.conns) |->
                  [kind |-> j.conns[k].kind, p1 |-> j.conns[k].p1, p2 |-> j.conns[k].p2,
